@@ -128,6 +128,7 @@ class LightDriver(MachineDriver):
         self.fade_probe = None      # (t0, fade_s, start, dest) for a fade started from rest
         self.other = self.m.lights["l_b2"] if self.backend == "batch" else None
         self.ref_other = None
+        self.fadeouts = []          # reference: bounding boxes of entries that are fading out
         self.until = {}             # reference: key -> end of the fade of its current command
         self.rm_until = {}          # reference: key -> end of a fading removal
 
@@ -235,7 +236,12 @@ class LightDriver(MachineDriver):
                 self.dev.off(fade_ms=fade, priority=KEYPRIO[key], key=key)
                 rgb = COLORS["off"]
             self.seq += 1
-            self.ref[key] = {"prio": KEYPRIO[key], "color": rgb, "seq": self.seq}
+            # bounding box of what this entry can show: its colour, and while it fades in also whatever lies below it
+            below = self._hull([self._box(k, now) for k, v in self.ref.items() if k != key and v["prio"] <= KEYPRIO[key]] +
+                               [f["box"] for f in self.fadeouts if f["until"] > now - EPS] + [(COLORS["off"], COLORS["off"])])
+            own = [self._box(key, now)] if key in self.ref else []     # a re-coloured key may fade from what it showed before
+            box = self._hull([(rgb, rgb), below] + own) if fade else (rgb, rgb)
+            self.ref[key] = {"prio": KEYPRIO[key], "color": rgb, "seq": self.seq, "box": box, "box_until": now + (fade or 0) / 1000.0}
             if fade and at_rest and self._top_keys() == [key]:
                 self.fade_probe = (now, fade / 1000.0, before, rgb)
                 self.stat("fades_from_rest")
@@ -246,10 +252,18 @@ class LightDriver(MachineDriver):
             self.dev.remove_from_stack_by_key(key, fade_ms=fade)
             if key in self.ref:
                 self.stat("removals")
+                if fade:
+                    # the entry fades out from what it showed (itself and, while it was fading in, what lay below it)
+                    below = [self._box(k, now) for k, v in self.ref.items() if k != key and v["prio"] <= self.ref[key]["prio"]]
+                    self.fadeouts.append({"box": self._hull([self._box(key, now)] + below + [f["box"] for f in self.fadeouts
+                                                                                               if f["until"] > now - EPS] +
+                                                            [(COLORS["off"], COLORS["off"])]),
+                                          "until": now + fade / 1000.0})
             self.ref.pop(key, None)
         elif kind == "clear":
             self.dev.clear_stack()
             self.ref = {}
+            self.fadeouts = []
             self.until = {}
             self.rm_until = {}
         elif kind == "hold_io":
@@ -265,6 +279,18 @@ class LightDriver(MachineDriver):
             self.ref_other = COLORS[op[1]]
             if self.io_wait:
                 self.stat("command_during_batch_io")
+
+    @staticmethod
+    def _hull(boxes):
+        lo = tuple(min(b[0][i] for b in boxes) for i in range(3))
+        hi = tuple(max(b[1][i] for b in boxes) for i in range(3))
+        return (lo, hi)
+
+    def _box(self, key, now):
+        e = self.ref[key]
+        if now >= e["box_until"] - EPS:
+            e["box"] = (e["color"], e["color"])
+        return e["box"]
 
     def _fading(self):
         now = self.loop.time()
@@ -305,6 +331,16 @@ class LightDriver(MachineDriver):
         sig_op = choice if isinstance(choice, str) else choice[0]
         if any(not 0 <= x <= 255 for x in got):
             self.violate("colour-range", "get_color() = %r" % (got,))
+        # at every instant the colour lies between the colours of the entries of the stack (and of those still fading out)
+        self.fadeouts = [f for f in self.fadeouts if f["until"] > now - EPS]
+        lo, hi = self._hull([self._box(k, now) for k in self.ref] + [f["box"] for f in self.fadeouts] +
+                            ([] if self.ref and not self.fadeouts and False else [(COLORS["off"], COLORS["off"])]))
+        if any(not lo[i] - 1 <= got[i] <= hi[i] + 1 for i in range(3)):
+            self.violate("colour-outside-stack", "%s shows %r but every entry of its stack (and every entry still fading out) lies "
+                         "between %r and %r (stack %r)" % (self.light, got, lo, hi,
+                                                            {k: (v["prio"], v["color"]) for k, v in self.ref.items()}))
+        else:
+            self.stat("hull_checks")
         # interpolation of a fade started from rest
         if self.fade_probe:
             t0, dur, start, dest = self.fade_probe
@@ -370,7 +406,9 @@ class LightDriver(MachineDriver):
             soft = bool(hw.task is not None and not hw.task.done())
         # pending delayed removals are named after the key: removing the same key again replaces, another key adds
         delays = tuple(sorted(str(n) for n in self.dev.delay.delays))
-        return (stack, batch, soft, delays, r6(max(self.busy_until - now, 0)), tuple(sorted((k, v["prio"], v["color"]) for k, v in self.ref.items())),
+        boxes = (tuple(sorted((k, self._box(k, now), r6(max(v["box_until"] - now, 0))) for k, v in self.ref.items())),
+                 tuple(sorted((f["box"], r6(f["until"] - now)) for f in self.fadeouts if f["until"] > now - EPS)))
+        return (stack, batch, soft, delays, boxes, r6(max(self.busy_until - now, 0)), tuple(sorted((k, v["prio"], v["color"]) for k, v in self.ref.items())),
                 tuple(sorted((str(k), round(v, 4)) for k, v in self.cmds.items())), self.hold_io, len(self.io_wait), tuple(self.io_payload),
                 self.ref_other, self.rel_timers(), self.task_fp())
 
